@@ -76,23 +76,80 @@ theorem stored_codec_chunk_independent : storedCodec.ChunkIndependent :=
 
 /-! ## Pipelines -/
 
-/-- **Entry pipeline, any method, modulo the explicit codec hypothesis** (needed for NON-EMPTY
-requests only: `Crc32Reader` answers zero-length reads itself, so the decoder never sees one).
-Whatever reader holds the archive bytes `A` from the entry's data start (any short-read behaviour),
-the entry reader `Crc32Reader(decoder(Take(csize)))` delivers the decoding of the first `csize`
-bytes and ends with the CRC verdict - for every schedule of caller buffers, zeros included. -/
-theorem pipeline_denotes_codec (c : Codec) (hc : c.ChunkIndependentNZ) (inner : Src σ) {s : σ}
-    {A : Bytes} {o : Term} (csize : Nat) (check : UInt32) (ae2 : Bool) (h : Denotes inner s A o) :
+/-! ### Compressed methods: what is asked of the external decoders
+
+CHANGED (review finding F3).  `pipeline_denotes_codec` / `pipeline_denotes_zipcrypto` used to take
+`Codec.ChunkIndependentNZ` - chunk independence of the decoder on EVERY compressed stream, damaged ones
+included - which flate2 / bzip2 / zstd do not satisfy (on damaged input the point where they notice
+depends on the buffer sizes; `picky_codec_separates` below is a model decoder of that kind).  The
+"all methods" clause was therefore proved from a hypothesis no real decoder meets.  Now:
+
+* `pipeline_denotes_codec` needs chunk independence on THE ONE stream the entry holds
+  (`Codec.ChunkIndependentOn`, implied by the old hypothesis, so nothing is lost);
+* `pipeline_denotes_intact` instantiates it for archives whose stored bytes are an encoder's output,
+  under `Codec.IntactOK` - chunk independence of decoding WELL-FORMED streams, the only thing assumed
+  about flate2 / bzip2 / zstd;
+* for damaged compressed streams schedule independence is NOT claimed (it is false for the real
+  decoders: the error may come earlier or later, zstd may even end cleanly with fewer bytes); what
+  holds for them under every schedule is C04 (`entry_read_sound_any_method`,
+  `damage_detected_unless_collision`). -/
+
+/-- **Entry pipeline, any method.** Whatever reader holds the archive bytes `A` from the entry's data
+start (any short-read behaviour), if the decoder is chunk independent on the entry's compressed
+stream `A.take csize` (for NON-EMPTY requests: `Crc32Reader` answers zero-length reads itself), the
+entry reader `Crc32Reader(decoder(Take(csize)))` delivers the decoding of that stream and ends with
+the CRC verdict - for every schedule of caller buffers, zeros included. -/
+theorem pipeline_denotes_codec (c : Codec) (inner : Src σ) {s : σ} {A : Bytes} {o : Term}
+    (csize : Nat) (hc : c.ChunkIndependentOn (A.take csize) (takeTerm csize A o))
+    (check : UInt32) (ae2 : Bool) (h : Denotes inner s A o) :
     Denotes (entryPipeline c inner check ae2) (c.init (s, csize), Crc32.init)
       (c.decode (A.take csize) (takeTerm csize A o)).1
       (crcTerm check ae2 (c.decode (A.take csize) (takeTerm csize A o)).1
         (c.decode (A.take csize) (takeTerm csize A o)).2) :=
-  Model.Layers.crc_denotes_nz _ check ae2
-    (hc.denotes _ _ _ _ (Model.Layers.take_denotes inner csize h))
+  Model.Layers.crc_denotes_nz _ check ae2 (hc _ _ (Model.Layers.take_denotes inner csize h))
 
-/-- The full hypothesis implies the restricted one. -/
-theorem codec_nz_of_full (c : Codec) (hc : c.ChunkIndependent) : c.ChunkIndependentNZ :=
-  ⟨fun inner s C o h => guardZero_denotes (hc.denotes inner s C o h)⟩
+/-- **Intact entries, any method, modulo `Codec.IntactOK`.** The archive holds, from the entry's data
+start, at least `csize` bytes and the first `csize` are what the encoder made of the payload `p`:
+under every short-read behaviour of the archive reader and every schedule of caller buffers the entry
+reader delivers exactly `p` and ends with the CRC verdict on `p`. -/
+theorem pipeline_denotes_intact (c : Codec) (encode : Bytes → Bytes) (hc : c.IntactOK encode)
+    (inner : Src σ) {s : σ} {A : Bytes} {o : Term} (csize : Nat) (check : UInt32) (ae2 : Bool)
+    (p : Bytes) (h : Denotes inner s A o) (hA : A.take csize = encode p) (hlen : csize ≤ A.length) :
+    Denotes (entryPipeline c inner check ae2) (c.init (s, csize), Crc32.init) p
+      (crcTerm check ae2 p .eof) := by
+  have ht : takeTerm csize A o = .eof := by simp only [takeTerm, hlen, if_true]
+  have h1 := pipeline_denotes_codec c inner csize (by rw [ht, hA]; exact hc.chunk p) check ae2 h
+  rw [ht, hA, hc.roundtrip p] at h1
+  exact h1
+
+/-- … with the right CRC in the central record: every read loop returns the payload and a clean
+end-of-file, and two loops (different fragmentation below, different buffers above) agree. -/
+theorem intact_entry_reads_payload (c : Codec) (encode : Bytes → Bytes) (hc : c.IntactOK encode)
+    (inner : Src σ) {s : σ} {A : Bytes} {o : Term} (csize : Nat) (ae2 : Bool) (p : Bytes)
+    (h : Denotes inner s A o) (hA : A.take csize = encode p) (hlen : csize ≤ A.length)
+    {reqs : List Nat} {b : Bytes} {t : Term} {e : c.St (σ × Nat) × UInt32}
+    (hr : readToEnd (entryPipeline c inner (Crc32.crc32 p) ae2) (c.init (s, csize), Crc32.init) reqs
+      = some (b, t, e)) :
+    b = p ∧ t = .eof := by
+  have hd := pipeline_denotes_intact c encode hc inner csize (Crc32.crc32 p) ae2 p h hA hlen
+  have ht : crcTerm (Crc32.crc32 p) ae2 p .eof = .eof := by simp [crcTerm]
+  rw [ht] at hd
+  obtain ⟨h1, h2, _⟩ := denotes_readToEnd hd hr
+  exact ⟨h1, h2⟩
+
+/-- The all-streams hypotheses imply the per-stream one (so the old statements follow from the new). -/
+theorem codec_on_of_nz (c : Codec) (hc : c.ChunkIndependentNZ) (C : Bytes) (o : Term) :
+    c.ChunkIndependentOn C o :=
+  hc.on C o
+
+/-- **The per-stream hypothesis is strictly weaker, and the difference is exactly the real decoders'
+behaviour**: `pickyCodec` (rejects a whole chunk that contains a byte outside its format, so the
+number of bytes delivered before the error depends on the chunking) is chunk independent on every
+stream inside its format and violates the all-streams hypothesis. -/
+theorem picky_codec_separates :
+    (∀ C o, C.all (· < 0x80) = true → pickyCodec.ChunkIndependentOn C o) ∧
+      ¬ pickyCodec.ChunkIndependentNZ :=
+  ⟨fun _ o hC => pickyCodec_on_intact hC o, pickyCodec_not_chunk_independent⟩
 
 /-- **Defect D12 (fixed by 80de80b): before the fix a zero-length read reached the decoder.** With a
 decoder that fails zero-length reads while output is outstanding - the observed behaviour of the
@@ -119,19 +176,33 @@ theorem pipeline_denotes_stored (inner : Src σ) {s : σ} {A : Bytes} {o : Term}
     (check : UInt32) (ae2 : Bool) (h : Denotes inner s A o) :
     Denotes (entryPipeline storedCodec inner check ae2) ((s, csize), Crc32.init)
       (A.take csize) (crcTerm check ae2 (A.take csize) (takeTerm csize A o)) :=
-  pipeline_denotes_codec storedCodec (codec_nz_of_full _ stored_codec_chunk_independent) inner csize
-    check ae2 h
+  pipeline_denotes_codec storedCodec inner csize (storedCodec_on _ _) check ae2 h
 
-/-- ZipCrypto entries (after validation), any method modulo the codec hypothesis. -/
-theorem pipeline_denotes_zipcrypto (c : Codec) (hc : c.ChunkIndependentNZ)
-    (dec : κ → UInt8 → UInt8 × κ) (inner : Src σ) {s : σ} {A : Bytes} {o : Term} (lim : Nat)
-    (k : κ) (check : UInt32) (h : Denotes inner s A o) :
+/-- ZipCrypto entries (after validation), any method: as `pipeline_denotes_codec`, the compressed
+stream being the decryption of the first `lim` bytes. -/
+theorem pipeline_denotes_zipcrypto (c : Codec) (dec : κ → UInt8 → UInt8 × κ) (inner : Src σ) {s : σ}
+    {A : Bytes} {o : Term} (lim : Nat) (k : κ)
+    (hc : c.ChunkIndependentOn (mapBytes dec k (A.take lim)) (takeTerm lim A o))
+    (check : UInt32) (h : Denotes inner s A o) :
     Denotes (entryPipelineZc c dec inner check) (c.init ((s, lim), k), Crc32.init)
       (c.decode (mapBytes dec k (A.take lim)) (takeTerm lim A o)).1
       (crcTerm check false (c.decode (mapBytes dec k (A.take lim)) (takeTerm lim A o)).1
         (c.decode (mapBytes dec k (A.take lim)) (takeTerm lim A o)).2) :=
   Model.Layers.crc_denotes_nz _ check false
-    (hc.denotes _ _ _ _ (Model.Layers.map_layer_denotes dec _ k (Model.Layers.take_denotes inner lim h)))
+    (hc _ _ (Model.Layers.map_layer_denotes dec _ k (Model.Layers.take_denotes inner lim h)))
+
+/-- Intact ZipCrypto entries, any method, modulo `Codec.IntactOK`: the decryption of the stored bytes
+is the encoder's output for `p`. -/
+theorem pipeline_denotes_zipcrypto_intact (c : Codec) (encode : Bytes → Bytes)
+    (hc : c.IntactOK encode) (dec : κ → UInt8 → UInt8 × κ) (inner : Src σ) {s : σ} {A : Bytes}
+    {o : Term} (lim : Nat) (k : κ) (check : UInt32) (p : Bytes) (h : Denotes inner s A o)
+    (hA : mapBytes dec k (A.take lim) = encode p) (hlen : lim ≤ A.length) :
+    Denotes (entryPipelineZc c dec inner check) (c.init ((s, lim), k), Crc32.init) p
+      (crcTerm check false p .eof) := by
+  have ht : takeTerm lim A o = .eof := by simp only [takeTerm, hlen, if_true]
+  have h1 := pipeline_denotes_zipcrypto c dec inner lim k (by rw [ht, hA]; exact hc.chunk p) check h
+  rw [ht, hA, hc.roundtrip p] at h1
+  exact h1
 
 /-- Stored + ZipCrypto, no assumption. -/
 theorem pipeline_denotes_stored_zipcrypto (dec : κ → UInt8 → UInt8 × κ) (inner : Src σ) {s : σ}
@@ -139,8 +210,7 @@ theorem pipeline_denotes_stored_zipcrypto (dec : κ → UInt8 → UInt8 × κ) (
     Denotes (entryPipelineZc storedCodec dec inner check) (((s, lim), k), Crc32.init)
       (mapBytes dec k (A.take lim))
       (crcTerm check false (mapBytes dec k (A.take lim)) (takeTerm lim A o)) :=
-  pipeline_denotes_zipcrypto storedCodec (codec_nz_of_full _ stored_codec_chunk_independent) dec inner lim
-    k check h
+  pipeline_denotes_zipcrypto storedCodec dec inner lim k (storedCodec_on _ _) check h
 
 /-! ## From denotations to what a caller observes -/
 
@@ -326,5 +396,38 @@ example :
     r.2.sink.contents = [1, 2, 3, 4, 5] ∧ r.2.written = 5 ∧
       Crc32.finalize r.2.reg = Crc32.crc32 [1, 2, 3, 4, 5] := by
   decide +kernel
+
+/-- `Codec.IntactOK` is satisfiable by a codec that is not the identity: every byte xor `0x55`. -/
+example : xorCodec.IntactOK (fun p => p.map (· ^^^ 0x55)) := xorCodec_intact
+
+/-- Hypotheses of `pipeline_denotes_intact` on a concrete instance: payload `[1,2,3]` encoded by
+`xorCodec`'s encoder, two more archive bytes behind it, reader delivering 2 bytes at a time. -/
+example :
+    Denotes scripted ⟨[0x54, 0x57, 0x56, 9, 9], [2], [2], none⟩ [0x54, 0x57, 0x56, 9, 9] .eof ∧
+      ([0x54, 0x57, 0x56, 9, 9] : Bytes).take 3 = ([1, 2, 3] : Bytes).map (· ^^^ 0x55) ∧
+      3 ≤ ([0x54, 0x57, 0x56, 9, 9] : Bytes).length :=
+  ⟨scripted_denotes _, by decide, by decide⟩
+
+/-- … and the run, with zero-length reads interleaved. -/
+example :
+    (readToEnd (entryPipeline xorCodec scripted (Crc32.crc32 [1, 2, 3]) false)
+      (xorCodec.init ((⟨[0x54, 0x57, 0x56, 9, 9], [2], [2], none⟩ : Scripted), 3), Crc32.init)
+        [0, 1, 0, 7, 0, 7, 7]).map (fun r => (r.1, r.2.1)) = some ([1, 2, 3], Term.eof) := by
+  decide +kernel
+
+/-- `pipeline_denotes_codec` with the decoder whose behaviour on damaged input depends on the
+chunking: on a stream inside its format the hypothesis holds. -/
+example (inner : Src σ) (s : σ) (tail : Bytes) (o : Term)
+    (h : Denotes inner s ([1, 2, 3] ++ tail) o) :
+    Denotes (entryPipeline pickyCodec inner (Crc32.crc32 [1, 2, 3]) false)
+      (pickyCodec.init (s, 3), Crc32.init) [1, 2, 3] .eof := by
+  have h1 := pipeline_denotes_codec pickyCodec inner 3
+    (pickyCodec_on_intact (by simp) _) (Crc32.crc32 [1, 2, 3]) false h
+  have e1 : ([1, 2, 3] ++ tail).take 3 = [1, 2, 3] := by simp
+  have e2 : takeTerm 3 ([1, 2, 3] ++ tail) o = .eof := by simp [takeTerm]
+  rw [e1, e2] at h1
+  have e3 : pickyCodec.decode [1, 2, 3] .eof = ([1, 2, 3], .eof) := by decide
+  rw [e3] at h1
+  simpa [crcTerm] using h1
 
 end ZipVerif.Props.C09
